@@ -243,7 +243,7 @@ Proof.
   induction items as [|i items IH]; intros Sg Gi acc Sg' Gi' Gs Hacc Hi Hd.
   - injection Hd as <-. exact Hacc.
   - destruct i as [n d|n ps qs]; [|discriminate]. cbn [init_gates gdefs] in Hi, Hd.
-    destruct (init_body Sg (gd_params d) (gd_qubits d) (gd_body d)) as [[|c cs]|] eqn:Eb; try discriminate.
+    destruct (init_body Sg (gd_params d) (gd_qubits d) (gd_body d)) as [cs|] eqn:Eb; try discriminate.
     eapply IH; [|exact Hi|exact Hd]. cbn [bodies_ok forallb snd]. rewrite (init_body_nodup _ _ _ _ _ Eb). exact Hacc.
 Qed.
 
